@@ -245,6 +245,10 @@ class X:
         c, t, b = self.tx(e.value, env)
         if t == "preocf" and e.attr == "ranks":
             return c, ("wdict", "optint"), b
+        if t == "preocf_s" and e.attr == "ranks":
+            return "(fst %s)" % c, ("wdict", "optint"), b
+        if t == "preocf_s" and e.attr == "signature":
+            return "(snd %s)" % c, ("list", "int"), b
         if t == "cond" and e.attr == "index":
             return "(ckz %s)" % c, "int", b
         table = {("cond", "antecedence"): ("cante", "form"), ("cond", "consequence"): ("ccons", "form"),
@@ -425,6 +429,10 @@ class X:
                 return ("(is_none %s)" % l if isinstance(op, ast.Is) else "(negb (is_none %s))" % l), "bool", bl
             if tl == "none":
                 return ("true" if isinstance(op, ast.Is) else "false"), "bool", bl
+            if tl == "int":
+                return ("false" if isinstance(op, ast.Is) else "true"), "bool", bl      # a value the translator typed as an integer is not None
+            if isinstance(tl, tuple) and tl[0] == "opt":
+                return ("(is_none %s)" % l if isinstance(op, ast.Is) else "(negb (is_none %s))" % l), "bool", bl
             if isinstance(tl, tuple) and tl[0] in ("dict", "list", "wdict"):
                 # an attribute that the translator was told holds a container: never None
                 return ("false" if isinstance(op, ast.Is) else "true"), "bool", bl
@@ -483,12 +491,17 @@ class X:
         it, tit, bit = self.tx(g.iter, env)
         if isinstance(tit, tuple) and tit[0] in ("list", "set"):
             et = tit[1]
+        elif tit == "world":
+            et = "bool"
         elif isinstance(tit, tuple) and tit[0] == "dict":
             it, et = "(dict_keys %s)" % it, "int"
         else:
             fail(e, "iteration over %r" % (tit,))
         env2 = dict(env)
         p = target_pat(g.target, env2, et)
+        if tit == "world":
+            p = "(%s : bool)" % p
+            it = "(%s : world)" % it
         conds = []
         for c in g.ifs:
             cc, cb = self.truth(c, env2)
@@ -551,6 +564,14 @@ class X:
             if kt != "int":
                 fail(e, "dictionary comprehension with keys of type %r" % (kt,))
             return "(map (fun %s => (%s, %s)) (dict_keys %s))" % (p, kc, vc, it), ("dict", vt), bit
+        if tit in (("list", "cond"), ("list", ("tuple", ("int", "int")))):
+            env2 = dict(env)
+            p = target_pat(g.target, env2, tit[1])
+            kc, kt = self.pure(e.key, env2)
+            vc, vt = self.pure(e.value, env2)
+            if kt != "int":
+                fail(e, "dictionary comprehension with keys of type %r" % (kt,))
+            return "(map (fun %s => (%s, %s)) %s)" % (p, kc, vc, it), ("dict", vt), bit
         if tit != ("list", "world"):
             fail(e, "dictionary comprehension over %r" % (tit,))
         env2 = dict(env)
@@ -704,6 +725,8 @@ class X:
             c, t, b = self.tx(e.args[0], env)
             if t == "int":
                 return c, "int", b
+            if t == "bool":
+                return "(if %s then (1)%%Z else (0)%%Z)" % c, "int", b      # int('1') / int('0') of a character of a bit string
             fail(e, "int() of %r" % (t,))
         if name == "enumerate" and len(e.args) == 1 and not e.keywords:
             c, t, b = self.tx(e.args[0], env)
@@ -887,10 +910,18 @@ class X:
         if name == "__unopt" and len(e.args) == 1:
             # inserted by the translator under `if x is not None:` - the value of x there
             c, t, b = self.tx(e.args[0], env)
+            if isinstance(t, tuple) and t[0] == "opt":
+                nm = self.ctx.fresh()
+                return nm, t[1], b + [(nm, "py_unsome %s" % c, "cbind")]
             if t != "optint":
                 fail(e, "narrowing of %r" % (t,))
             nm = self.ctx.fresh()
             return nm, "int", b + [(nm, "py_unopt %s" % c, "cbind")]
+        if name == "isinstance" and len(e.args) == 2 and isinstance(e.args[1], ast.Name) and e.args[1].id == "int":
+            c, t, b = self.tx(e.args[0], env)
+            if t == "int":
+                return "true", "bool", b
+            fail(e, "isinstance(_, int) of %r" % (t,))
         if name in env and isinstance(env[name], tuple) and env[name][0] == "fn":
             # a callable parameter: an unknown function that may raise
             cs, ts, b = self.simple_args(e, env, len(env[name][1]))
@@ -1013,7 +1044,7 @@ class X:
             if qt != "cond":
                 fail(e, "query_to_cnf of %r" % (qt,))
             return "(cnf_of_query %s)" % qc, ("tuple", (("list", "sclause"), ("list", "sclause"))), b + qb
-        if t == "preocf" and f.attr == "world_satisfies_conditionalization" and len(e.args) == 2 and not e.keywords:
+        if t in ("preocf", "preocf_s") and f.attr == "world_satisfies_conditionalization" and len(e.args) == 2 and not e.keywords:
             fn = self.ctx.table.get("PreOCF.world_satisfies_conditionalization")
             if fn is None or not fn.pure:
                 fail(e, "world_satisfies_conditionalization is not available as a plain definition")
@@ -1022,7 +1053,7 @@ class X:
             if (wt, ft) != ("world", "form"):
                 fail(e, "world_satisfies_conditionalization of %r" % ((wt, ft),))
             return "(%s n %s %s)" % (fn.coq, wc, fc), "bool", b + wb + fb
-        if t == "preocf" and f.attr == "rank_world" and len(e.args) == 1 and not e.keywords:
+        if t in ("preocf", "preocf_s") and f.attr == "rank_world" and len(e.args) == 1 and not e.keywords:
             fn = self.ctx.table.get("PreOCF.rank_world")
             wc, wt, wb = self.tx(e.args[0], env)
             if fn is None or wt != "world":
@@ -1725,7 +1756,7 @@ class B:
 
 # ------------------------------------------------------------------------------------------------ driver
 COQ_TYPES = {"bool": "bool", "int": "Z", "form": "form", "cond": "cond", "solver": "solver", "str": "unit", "none": "unit",
-             "bb": "pybase", "deadline": "unit", "wcnf": "wcnf", "sclause": "sclause", "optimizer": "unit", "tseitin": "unit", "world": "world", "zopt": "zopt", "optint": "(option Z)", "preocf": "(wdict (option Z))", "pool": "unit", "iterm": "iterm", "icon": "icon", "isolver": "(list icon)", "symidx": "symidx", "float": "unit"}
+             "bb": "pybase", "deadline": "unit", "wcnf": "wcnf", "sclause": "sclause", "optimizer": "unit", "tseitin": "unit", "world": "world", "zopt": "zopt", "optint": "(option Z)", "preocf": "(wdict (option Z))", "preocf_s": "((wdict (option Z)) * (list Z))", "pool": "unit", "iterm": "iterm", "icon": "icon", "isolver": "(list icon)", "symidx": "symidx", "float": "unit"}
 
 
 def coq_type(t):
@@ -1738,6 +1769,8 @@ def coq_type(t):
             return "(dict Z %s)" % coq_type(t[1])
         if t[0] == "wdict":
             return "(wdict %s)" % coq_type(t[1])
+        if t[0] == "opt":
+            return "(option %s)" % coq_type(t[1])
         if t[0] == "fn":
             return "(%s)" % " -> ".join([coq_type(x) for x in t[1]] + ["ctl %s unit unit" % coq_type(t[2])])
         if t[0] == "res":
@@ -1799,6 +1832,14 @@ def translate_function(tree, fn, table, consts):
                     bind = ast.Assign(targets=[ast.Name(id=b, ctx=ast.Store())],
                                       value=ast.Call(func=ast.Name(id="__unopt", ctx=ast.Load()), args=[ast.Name(id=a, ctx=ast.Load())], keywords=[]))
                     x.body = [ast.copy_location(bind, x)] + body
+                if (isinstance(t, ast.Compare) and len(t.ops) == 1 and isinstance(t.ops[0], ast.Is) and isinstance(t.left, ast.Name)
+                        and t.left.id in names and isinstance(t.comparators[0], ast.Constant) and t.comparators[0].value is None and x.orelse):
+                    a = t.left.id
+                    b = a + "__val"
+                    body = [Ren(a, b).visit(st) for st in x.orelse]
+                    bind = ast.Assign(targets=[ast.Name(id=b, ctx=ast.Store())],
+                                      value=ast.Call(func=ast.Name(id="__unopt", ctx=ast.Load()), args=[ast.Name(id=a, ctx=ast.Load())], keywords=[]))
+                    x.orelse = [ast.copy_location(bind, x)] + body
                 return x
         node = Narrow().visit(node)
         ast.fix_missing_locations(node)
@@ -2057,6 +2098,10 @@ TARGETS = [
         Fn("encoding", "py_crev_encoding", [("gammas", ("dict", ("tuple", ("iterm", "iterm")))), ("vSums", ("dict", ("list", "iterm"))), ("fSums", ("dict", ("list", "iterm")))]),
         Fn("translate_to_csp", "py_translate_to_csp", [("compilation", ("tuple", (("dict", ("list", TRIPLE)), ("dict", ("list", TRIPLE))))), ("gamma_plus_zero", "bool"),
                                                         ("fixed_gamma_plus", "none"), ("fixed_gamma_minus", "none")]),
+        Fn("_extract_cond_masks", "m_extract_masks", [("cond", "cond"), ("sig_index", ("dict", "int"))], ret=("opt", ("tuple", ("int", "int", "int", "int"))), abstract=True),
+        Fn("compile_alt_fast", "py_compile_alt_fast", [("ranking_function", "preocf_s"), ("revision_conditionals", ("list", "cond"))],
+           locals_={"vMin": ("dict", ("list", TRIPLE)), "fMin": ("dict", ("list", TRIPLE)), "accepted_list": ("list", "int"), "rejected_list": ("list", "int"),
+                    "cond_masks": ("dict", ("opt", ("tuple", ("int", "int", "int", "int"))))}, narrow=["mask"]),
         Fn("compile_alt", "py_compile_alt", [("ranking_function", "preocf"), ("revision_conditionals", ("list", "cond"))],
            locals_={"vMin": ("dict", ("list", TRIPLE)), "fMin": ("dict", ("list", TRIPLE)), "acc_list": ("list", "int"), "rej_list": ("list", "int")}),
     ]),
